@@ -4,10 +4,11 @@ import OpdaProofs.QuadEquiv
 import OpdaProofs.QuadNoisyDual
 import OpdaProofs.QuadNoisyCurves
 import OpdaProofs.QuadNoisyReal
+import OpdaProofs.SampleEquiv
 /-!
 # C09 — reflection duality and location–scale equivariance of the parametric families
 
-Property theorems only (lemmas in `OpdaProofs/Quad{Dual,Equiv,NoisyDual,NoisyCurves,NoisyReal,Trap}.lean`).
+Property theorems only (lemmas in `OpdaProofs/Quad{Dual,Equiv,NoisyDual,NoisyCurves,NoisyReal,Trap}.lean`, `SampleEquiv.lean`).
 
 * **Noiseless class**: about the polymorphic model `Opda.Quad.*` (`OpdaModel/Quadratic.lean`) read at `ℝ`;
   the driver evaluates the same constants at `Float`.
@@ -25,6 +26,15 @@ Property theorems only (lemmas in `OpdaProofs/Quad{Dual,Equiv,NoisyDual,NoisyCur
   location–scale equivariance holds for the integrand **without** it (`navg_repaired_affine`) and for
   the code's integrand only when `0` lies outside the integration range (`…_partial`) — the
   complement is finding F4.
+* **`sample`** (section `sample`): about the model of the two `sample` methods as functions of the generator's primitives
+  (`OpdaModel/Sample.lean`, the terms the driver's `rng.*` ops evaluate at `Float`; that the code *is* this function of the
+  primitives drawn from the same seed is compared bitwise by `corr_C13`), read at `ℝ`.  Location–scale: for the same
+  uniform `u` (and the same standard normal `z`, `o = s(b−a)`) the draw of `D` is `a + (b−a)` times the draw of `D₀`, for
+  every real `u`, `z` (`quad_sample_affine`, `noisy_sample_affine`).  Reflection: the mirrored instance fed with `1 − u`
+  and `−z` returns minus the draw (`quad_sample_reflect`, `noisy_sample_reflect`); with the *same* `u` it does not
+  (`sample_reflect_same_seed_fails`) — for `sample` the reflection is an identity of laws (`1 − U` uniform, `−Z` normal),
+  not of equal-seed draws.  Exact real arithmetic; at `Float`, `1 − (1 − u) ≠ u` and `a + (b−a)x` round (compared through
+  the cdf at the property's tolerance).
 -/
 namespace Opda.Props.C09
 open Opda
@@ -184,6 +194,45 @@ theorem navg_value_is_valueRep {F : Fns ℝ} (d : Params ℝ) (ns : List ℝ) (m
   rfl
 
 end navg
+
+/-! ## `sample` (model `Opda.Sample` of the two methods as functions of the generator's primitives) -/
+section sample
+open Opda.Sample
+
+/-- noiseless class, **same seed** (the same uniform `u`, every real `u`): `D.sample = a + (b−a)·D₀.sample`,
+`D₀ = (0, 1, c, convex)` -/
+theorem quad_sample_affine (d : Quad.Params ℝ) (u : ℝ) :
+    quadSample d u = d.a + (d.b - d.a) * quadSample (Quad.std0 d) u := quadSample_affine d u
+
+/-- noisy class, **same seed** (the same uniform `u` and the same standard normal `z`, every real `u`, `z`), noise
+`o = s·(b−a)`: `D.sample = a + (b−a)·D₀.sample`, `D₀ = (0, 1, c, s, convex)` -/
+theorem noisy_sample_affine (d : Quad.Params ℝ) (s u z : ℝ) :
+    noisySample d (s * (d.b - d.a)) u z = d.a + (d.b - d.a) * noisySample (Quad.std0 d) s u z :=
+  noisySample_affine d s u z
+
+/-- the same with `D₀`'s noise written `o/(b−a)` (`a < b`) -/
+theorem noisy_sample_affine_scale (d : Quad.Params ℝ) (hab : d.a < d.b) (o u z : ℝ) :
+    noisySample d o u z = d.a + (d.b - d.a) * noisySample (Quad.std0 d) (o / (d.b - d.a)) u z :=
+  noisySample_affine_div d hab o u z
+
+/-- noiseless class: the mirrored instance `D' = (−b, −a, c, ¬convex)` at the **complementary uniform** `1 − u` returns minus
+the draw, every real `u` -/
+theorem quad_sample_reflect (d : Quad.Params ℝ) (u : ℝ) :
+    quadSample d u = - quadSample (Quad.reflect d) (1 - u) := quadSample_reflect d u
+
+/-- noisy class: the mirrored instance (same `o`) at the complementary uniform `1 − u` and the **negated normal** `−z` returns
+minus the draw, every real `u`, `z` -/
+theorem noisy_sample_reflect (d : Quad.Params ℝ) (o u z : ℝ) :
+    noisySample d o u z = - noisySample (Quad.reflect d) o (1 - u) (-z) := noisySample_reflect d o u z
+
+/-- **not** with the same uniform: `Q(0,1,1,convex)` at `u = 1/4` draws `1/16`, its mirror image draws `−9/16 ≠ −1/16`; so
+"`D.sample(seed) = −D'.sample(seed)`" is false, and the reflection clause for `sample` holds in law only -/
+theorem sample_reflect_same_seed_fails :
+    quadSample ({ a := 0, b := 1, c := 1, convex := true } : Quad.Params ℝ) (1/4)
+      ≠ - quadSample (Quad.reflect ({ a := 0, b := 1, c := 1, convex := true } : Quad.Params ℝ)) (1/4) :=
+  quadSample_reflect_same_seed_fails
+
+end sample
 
 /-! ## non-vacuity: the real instance satisfies the hypotheses -/
 example (T : List (ℕ × List (Noisy.Entry ℝ))) (ninf pinf : ℝ) :
